@@ -9,6 +9,7 @@ pub mod c08;
 pub mod c09;
 pub mod c10;
 pub mod c11;
+pub mod c12;
 pub mod c13;
 pub mod c19;
 
@@ -38,6 +39,7 @@ pub fn sim_check(id: &str, tier: &str, _seed: i64) -> Option<SimCheck> {
         "C09" => Some(c09::build(tier)),
         "C10" => Some(c10::build(tier)),
         "C11" => Some(c11::build(tier)),
+        "C12" => Some(c12::build(tier)),
         "C13" => Some(c13::build(tier)),
         "C19" => Some(c19::build(tier)),
         _ => None,
